@@ -635,6 +635,21 @@ type c37 struct {
 	rec     *evi.Recorder
 	maxPrec uint
 	long    []*longLived
+	// failed is set when a deterministic section has reported an unlisted violation: the
+	// verdict is then decided, and the remaining sections are skipped (a library that is
+	// wrong on the small sweep can also be arbitrarily slow on the extreme inputs that follow)
+	failed bool
+}
+
+// violation reports through rec.Violation and remembers an unlisted one.
+func (h *c37) violation(prefix string) reporter {
+	return func(key, what string, cs any) bool {
+		known := h.rec.Violation(prefix+key, what, cs)
+		if !known {
+			h.failed = true
+		}
+		return known
+	}
 }
 
 // longLived holds the objects of the consensus package that outlive a single
@@ -997,8 +1012,7 @@ func TestC37(t *testing.T) {
 						continue
 					}
 					c := &thCase{Pool: pool, Total: total, F: big.NewRat(a, b), StakeClass: "sweep", FClass: "sweep"}
-					rep := func(key, what string, cs any) bool { return rec.Violation(key, what, cs) }
-					got, _, o, _ := h.checkThreshold(c, [2]bool{true, true}, rep, fatalT)
+					got, _, o, _ := h.checkThreshold(c, [2]bool{true, true}, h.violation(""), fatalT)
 					sweepN++
 					if a > 0 && a < b && pool > 0 && o.want[0] != nil && got[0] != nil {
 						rec.NonTrivial(fmt.Sprintf("%d/%d f=%d/%d", pool, total, a, b), nil)
@@ -1014,6 +1028,9 @@ func TestC37(t *testing.T) {
 	}
 	rec.SetExtra("n_sweep_cases", sweepN)
 	rec.SetExtra("sweep_bounds", fmt.Sprintf("total<=%d, pool<=total+1, f=a/b with b<=%d (reduced), both modes; split over %d processes by case index", S, Bm, parts))
+	if h.failed {
+		return
+	}
 
 	// --- fixed deep cases: the implementation's last escalation levels and its error exit.
 	// 1-f = (3/2^40)^3 * (1 +/- 2^-B), sigma = 2/3: 2^k*(1-f)^sigma is within ~2^(k-B) of the integer 9*2^(k-80).
@@ -1038,8 +1055,7 @@ func TestC37(t *testing.T) {
 				Constructed: true, Root: root, N: 2, M: 3, Pert: d.sign, PertBits: d.B}
 			run := [2]bool{}
 			run[d.mode] = true
-			rep := func(key, what string, cs any) bool { return rec.Violation(key, what, cs) }
-			got, _, o, _ := h.checkThreshold(c, run, rep, fatalT)
+			got, _, o, _ := h.checkThreshold(c, run, h.violation(""), fatalT)
 			rec.Class(c.FClass)
 			switch {
 			case got[d.mode] == nil:
@@ -1053,13 +1069,19 @@ func TestC37(t *testing.T) {
 	// after the error exits above a plain question must still get the plain answer
 	{
 		c := &thCase{Pool: 1, Total: 2, F: big.NewRat(3, 4), StakeClass: "after_error", FClass: "after_error"}
-		h.checkThreshold(c, [2]bool{true, true}, func(key, what string, cs any) bool { return rec.Violation("after-error:"+key, what, cs) }, fatalT)
+		h.checkThreshold(c, [2]bool{true, true}, h.violation("after-error:"), fatalT)
+	}
+	if h.failed {
+		return
 	}
 
 	// --- special values, deterministic: stakes around 2^63 and 2^64-1, sigma 0 and 1,
 	// perfect-power and power-of-two coefficients, f next to 0 and 1, and for each the
 	// leader values 00..00, ff..ff, T-1, T, T+1
 	h.sweepSpecial(part, parts, fatalT)
+	if h.failed {
+		return
+	}
 
 	// --- long-lived objects
 	for _, f := range []*big.Rat{big.NewRat(1, 20), big.NewRat(1, 2), big.NewRat(3, 4)} {
@@ -1136,7 +1158,7 @@ func TestC37(t *testing.T) {
 // sweepSpecial: deterministic special values (see TestC37).
 func (h *c37) sweepSpecial(part, parts int, fatal func(string)) {
 	rec := h.rec
-	rep := func(key, what string, cs any) bool { return rec.Violation("special:"+key, what, cs) }
+	rep := h.violation("special:")
 	const m63 = uint64(1) << 63
 	stakes := []uint64{0, 1, m63 - 1, m63, m63 + 1, math.MaxUint64}
 	two := func(n uint) *big.Rat { return new(big.Rat).SetFrac(bigOne, pow2(n)) }
@@ -1170,6 +1192,9 @@ func (h *c37) sweepSpecial(part, parts int, fatal func(string)) {
 	for idx, k := range cases {
 		if parts > 1 && idx%parts != part {
 			continue
+		}
+		if h.failed {
+			break
 		}
 		c := &thCase{Pool: k.pool, Total: k.total, F: new(big.Rat).Set(k.f), StakeClass: "special", FClass: "special"}
 		got, confirmed, o, _ := h.checkThreshold(c, [2]bool{true, true}, rep, fatal)
